@@ -66,6 +66,7 @@ type Chain struct {
 	spacing  time.Duration
 	t0       time.Time
 	mempool  map[chainhash.Hash]*wire.MsgTx
+	tracked  map[chainhash.Hash]bool
 	online   bool // wallet attached: notifications are produced
 	blocksOn bool // NotifyBlocks was called
 
@@ -95,7 +96,7 @@ type Chain struct {
 // genesis block of params, with the given block spacing.
 func New(params *chaincfg.Params, n int, t0 time.Time, spacing time.Duration) *Chain {
 	c := &Chain{Params: params, byHash: map[chainhash.Hash]*Block{}, spacing: spacing, t0: t0,
-		mempool: map[chainhash.Hash]*wire.MsgTx{}, watchScripts: map[string]bool{}, watchOps: map[wire.OutPoint]bool{},
+		mempool: map[chainhash.Hash]*wire.MsgTx{}, tracked: map[chainhash.Hash]bool{}, watchScripts: map[string]bool{}, watchOps: map[wire.OutPoint]bool{},
 		ErrNotifyRecv: errors.New("mockchain: notification subscription failed")}
 	c.qcond = sync.NewCond(&c.qmu)
 	g := &Block{Hash: *params.GenesisHash, Height: 0, Time: t0}
@@ -198,6 +199,43 @@ func (c *Chain) Disconnect(depth int) []*Block {
 		}
 	}
 	return removed
+}
+
+// Track marks a transaction whose outputs can only be spent once the backend has it (in its
+// mempool or in a block of the best chain): a child offered before its tracked parent is refused
+// with "missing inputs", as a real backend does.
+func (c *Chain) Track(h chainhash.Hash) {
+	c.mu.Lock()
+	c.tracked[h] = true
+	c.mu.Unlock()
+}
+
+func (c *Chain) hasTxLocked(h chainhash.Hash) bool {
+	if _, ok := c.mempool[h]; ok {
+		return true
+	}
+	for _, b := range c.best {
+		for _, tx := range b.Txs {
+			if tx.TxHash() == h {
+				return true
+			}
+		}
+	}
+	return false
+}
+
+// Reconnect appends blocks that were disconnected before (the same blocks, same hashes),
+// lowest first, with the usual connect notifications.
+func (c *Chain) Reconnect(blocks []*Block) {
+	c.mu.Lock()
+	defer c.mu.Unlock()
+	for _, b := range blocks {
+		c.best = append(c.best, b)
+		for _, tx := range b.Txs {
+			delete(c.mempool, tx.TxHash())
+		}
+		c.notifyConnectLocked(b)
+	}
 }
 
 // SendStaleDisconnect delivers a disconnect notification for a block that is
@@ -498,6 +536,12 @@ func (c *Chain) SendRawTransaction(tx *wire.MsgTx, allowHighFees bool) (*chainha
 	} else if _, known := c.mempool[h]; known {
 		// what a real backend answers to a re-broadcast
 		err = chain.ErrTxAlreadyInMempool
+	} else {
+		for _, in := range tx.TxIn {
+			if c.tracked[in.PreviousOutPoint.Hash] && !c.hasTxLocked(in.PreviousOutPoint.Hash) {
+				err = errors.New("mockchain: missing inputs (the parent transaction is unknown to the backend)")
+			}
+		}
 	}
 	ans := "accepted"
 	if err != nil {
